@@ -176,6 +176,7 @@ def run_shard(shard) -> Result:
                 continue
             _compare_structure(s0, s1, cfg_sig, name, cfg, res, w, {m.full_name: m for m in b.user_messages()})
         _compare_behaviour(builds, shard, name, res, w0)
+        _compare_histories(builds, shard, name, res, w0)
         _compare_alias_members(builds, name, res, w0)
         if len(res.samples) < 1:
             res.sample({"program": name, "variants_built": sorted(builds), "messages": len(s0["messages"]), "services": len(s0["services"])})
@@ -419,6 +420,125 @@ def _compare_behaviour(builds, shard, name, res: Result, w0):
                         res.violation("behaviour", [cfg_sig, "json-differs", "-", "-"], f"{name} [{cfg}]: {mi.full_name}: {want_json[:150]} vs {gj[:150]}", w)
                 except Exception as e:
                     res.violation("behaviour", [cfg_sig, "to_json-raised:" + type(e).__name__, "-", "-"], f"{name} [{cfg}]: {mi.full_name}: {e!r}", w)
+
+
+def _history_trace(b, mi_name, ta, tb):
+    """one fixed script of public operations on a message built from tree `ta` and on its copies, with the fields of
+    tree `tb` assigned / grown in place / decoded onto them; returns the list of observations (bytes and JSON of EVERY
+    object involved after every step), the same for every configuration if the generated classes behave the same"""
+    import copy
+    import pickle
+
+    from ..values import attr_names
+
+    mi = b.msgs[mi_name]
+    bp = BP(b)
+    trace = []
+
+    def snap(tag, *objs):
+        row = [tag]
+        for o in objs:
+            try:
+                row.append(bytes(o).hex())
+            except Exception as e:
+                row.append("bytes-raised:" + type(e).__name__)
+            row.append(_safe_json(o))
+        trace.append(row)
+
+    def step(tag, fn, *objs):
+        try:
+            fn()
+        except Exception as e:
+            trace.append([tag, "raised:" + type(e).__name__])
+            return False
+        snap(tag, *objs)
+        return True
+
+    m = bp.make(mi, ta)
+    other = bp.make(mi, tb)
+    other_bytes = bytes(other)
+    box = {}
+    if not step("copy", lambda: box.update(c=copy.copy(m), d=copy.deepcopy(m)), m):
+        return trace
+    c, d = box["c"], box["d"]
+    snap("copies", m, c, d)
+    try:
+        box["p"] = pickle.loads(pickle.dumps(m))
+        snap("pickle", box["p"])
+    except Exception as e:
+        trace.append(["pickle", "raised:" + type(e).__name__])
+    kw = bp.kwargs(mi, tb, "attr")
+    for k, v in kw.items():
+        if not step("assign-on-shallow-copy:" + k, lambda k=k, v=v: setattr(c, k, v), m, c, d):
+            break
+    for k, v in reversed(list(bp.kwargs(mi, tb, "attr").items())):
+        if not step("assign-on-deep-copy:" + k, lambda k=k, v=v: setattr(d, k, v), m, c, d):
+            break
+    e = copy.deepcopy(m)
+    step("grow-deep-copy-in-place", lambda: bp.fill_inplace(e, mi, tb), m, e)
+    # (decoding appends to the lists it finds: onto a SHALLOW copy that is visible through the original exactly when the two
+    # share their list objects, which the standard flavour does and pydantic's validating constructor does not -- the field
+    # values are then no longer identical, so C18 says nothing; only deep copies are decoded onto)
+    f = copy.deepcopy(m)
+    step("decode-onto-deep-copy", lambda: f.parse(other_bytes), m, f)
+    g = copy.deepcopy(other)
+    step("assign-original-fields-on-copy-of-other", lambda: [setattr(g, k, v) for k, v in bp.kwargs(mi, ta, "attr").items()], other, g)
+    for grp in mi.oneofs:
+        try:
+            import betterproto
+
+            trace.append(["which_one_of:" + grp] + [betterproto.which_one_of(o, grp)[0] for o in (m, c, d, e, f, other, g)])
+        except Exception as ex:
+            trace.append(["which_one_of:" + grp, "raised:" + type(ex).__name__])
+    return trace
+
+
+def _compare_histories(builds, shard, name, res: Result, w0):
+    """C18 says 'for identical field values ... identical bytes and identical JSON': that must also hold for the objects
+    a program ends up with after copying and mutating, not only for freshly constructed ones"""
+    base_cfg = CONFIGS[0]
+    b0 = builds[base_cfg]
+    rng = random.Random(f"c18h-{shard['seed']}")
+    g = Gen(b0, rng, max_depth=2)
+    msgs = [mi for mi in b0.user_messages() if mi.fields]
+    rng.shuffle(msgs)
+    pairs = []
+    for mi in msgs[: 12]:
+        for _ in range(2 if mi.oneofs else 1):
+            pairs.append((mi, g.tree(mi, 0, "random"), g.tree(mi, 0, "random")))
+        pairs.append((mi, g.tree(mi, 0, "maximal"), g.tree(mi, 0, "random")))
+        if mi.oneofs:
+            from ..values import default_leaf
+
+            for grp, members in mi.oneofs.items():
+                if len(members) >= 2:
+                    a, bb = rng.sample(members, 2)
+                    pairs.append((mi, {a: default_leaf(mi.field(a))}, {bb: default_leaf(mi.field(bb))}))
+                    pairs.append((mi, {a: g.leaf(mi.field(a), 1)}, {bb: g.leaf(mi.field(bb), 1)}))
+    for mi, ta, tb in pairs:
+        try:
+            want = _history_trace(b0, mi.full_name, ta, tb)
+        except Exception:
+            res.note("default-variant-cannot-run-history")
+            continue
+        for cfg, b in builds.items():
+            if cfg == base_cfg:
+                continue
+            cfg_sig = cfg.replace("typing.", "")
+            w = dict(w0, config=cfg, msg=mi.full_name, history=True, tree=tree_to_json(ta), tree2=tree_to_json(tb))
+            res.counters["comparisons"] += 1
+            res.counters["histories_compared"] += 1
+            try:
+                got = _history_trace(b, mi.full_name, ta, tb)
+            except Exception as e:
+                res.violation("history", [cfg_sig, "history-raised:" + type(e).__name__, "-", "-"], f"{name} [{cfg}]: {mi.full_name}: {e!r}", w)
+                continue
+            if got != want:
+                k = next((i for i, (x, y) in enumerate(zip(want, got)) if x != y), min(len(want), len(got)))
+                tag = (want[k][0] if k < len(want) else got[k][0]).split(":")[0]
+                res.violation("history", [cfg_sig, "history-differs", tag, "-"],
+                              f"{name} [{cfg}]: {mi.full_name}: after the same operations the objects differ at step {k}: "
+                              f"default {str(want[k] if k < len(want) else None)[:300]} vs {str(got[k] if k < len(got) else None)[:300]}", w)
 
 
 def _compare_alias_members(builds, name, res: Result, w0):
